@@ -79,6 +79,7 @@ OTHER = {
  "F12": ("C18", "worlds", {"rules": [{"Single": 0}, {"Pair": 0}], "ents": [{"marked": True, "comps": 3, "prefill": 0}], "foreign": False}),
  "F13": ("C13", "walks", {"auth": 0, "dedicated": False, "steps": [{"Status": 2}, "Frame", "EmitC", "Frame", {"Status": 0}, "Frame", "Frame"]}),
  "F13b": ("C13", "walks", {"auth": 1, "dedicated": False, "steps": [{"Status": 2}, "Frame", {"Status": 0}, "Frame", "Frame"]}),
+ "F25": ("C10", "split", {'m': 40, 'n': 4, 'owners': True, 'rounds': [{'deliver': [], 'drop_rest': False, 'graph': [{'Own': [4, 5]}, {'Own': [1, 4]}], 'muts': [[0, 0, 0]]}, {'deliver': [], 'drop_rest': False, 'graph': [{'Own': [4, 3]}], 'muts': [[5, 0, 0], [1, 1, 5], [0, 1, 584]]}], 'track': False}),
  "F19": ("C13", "walks", {"auth": 0, "dedicated": False, "steps": [{"EmitCT": False}, "Frame", {"Status": 1}, "Frame", "Frame"]}),
 }
 for name, (prop, unit, case) in OTHER.items():
